@@ -7,6 +7,8 @@
 import Demeter.Drv.Json
 import Demeter.Deribit
 import Demeter.Deribit.Run
+import Demeter.Deribit.Guard
+import Demeter.Deribit.Frame
 namespace Demeter.Drv
 open Demeter Demeter.Deribit Lean
 
@@ -181,21 +183,40 @@ def answer (o : Outcome) (s : DState) : Json :=
 def stepH : JHandler := fun j => do
   let s ← stateOf (← jObj j "state")
   let op ← opOf (← jObj j "op")
-  let (o, s') := step (dctxOf j) (cfgOf j) s op
+  -- `stepE`: `step` with the exception `update()` raises when a due in-the-money position has underlying price 0
+  let (o, s') := stepE (dctxOf j) (cfgOf j) s op
   pure (answer o s')
 
 /-- C16: the bar loop.  `books` is a list of books, each bar `{"now","flagOpen","book":<index>,"price","priceDec","ops":[…]}` -/
-def barOf (books : Array (List Instr)) (j : Json) : Except String Bar := do
+def barOf (books : Array (List Instr)) (frame : Option Frame) (j : Json) : Except String Bar := do
   let now ← jInt j "now"
-  let fo ← jBool j "flagOpen"
-  let bi ← jNat j "book"
-  let book ← match books[bi]? with
-    | some b => pure b
-    | none => throw s!"book index {bi}"
   let price ← jRat j "price"
   let priceDec ← jBool j "priceDec"
   let ops ← (← jArr j "ops").toList.mapM opOf
-  pure { now := now, flagOpen := fo, book := book, price := price, priceDec := priceDec, ops := ops }
+  match frame with
+  | some d =>
+    -- `is_open` and the book are the model's own: `timestamp in _data.index`, `_data.loc[timestamp.floor("1h")]`
+    pure (barOfFrame d now price priceDec ops)
+  | none =>
+    let fo ← jBool j "flagOpen"
+    let bi ← jNat j "book"
+    let book ← match books[bi]? with
+      | some b => pure b
+      | none => throw s!"book index {bi}"
+    pure { now := now, flagOpen := fo, book := book, price := price, priceDec := priceDec, ops := ops }
+
+/-- optional `"frame": [{"t": minute, "book": index into books}]`: the option frame `_data` -/
+def frameOf (books : Array (List Instr)) (j : Json) : Except String (Option Frame) :=
+  match jOpt j "frame" with
+  | some (.arr a) => do
+    let es ← a.toList.mapM (fun e => do
+      let t ← jInt e "t"
+      let bi ← jNat e "book"
+      match books[bi]? with
+      | some b => pure (t, b)
+      | none => throw s!"frame book index {bi}")
+    pure (some es)
+  | _ => pure none
 
 /-- the optional hook lists of a bar: `opsAfter` (after_bar), `opsNotify` (Strategy.notify) -/
 def opsOpt (j : Json) (k : String) : Except String (List Op) :=
@@ -208,8 +229,9 @@ def barsH : JHandler := fun j => do
   let books ← (← jArr j "books").mapM (fun b => match b with
     | .arr a => a.toList.mapM instrOf
     | _ => throw "books entry")
+  let frame ← frameOf books j
   let bars ← (← jArr j "bars").toList.mapM (fun bj => do
-    let b ← barOf books bj
+    let b ← barOf books frame bj
     let a ← opsOpt bj "opsAfter"
     let n ← opsOpt bj "opsNotify"
     pure (b, a, n))
